@@ -6,6 +6,8 @@ CONSTANTS
   OrderedMerge = TRUE
   ReadsLeak = FALSE
   OrderedScan = TRUE
+  TableCalls = FALSE
+  Registers = FALSE
   Aliases = FALSE
 INVARIANT DumpInputs
 CONSTRAINT Stop
